@@ -152,7 +152,9 @@ fn prog_key(p: u8) -> Pubkey { Pubkey::new_from_array([60 + p; 32]) }
 fn plain_key(a: u8) -> Pubkey { Pubkey::new_from_array([80 + a; 32]) }
 fn buf_key(id: u8) -> Pubkey { Pubkey::new_from_array([150 + id; 32]) }
 
-struct Consts { store_key: Pubkey, cfg_key: Pubkey, exec: [(Pubkey, u8, Pubkey, u8); 3] } // (executor, bump, wallet, wallet bump)
+struct Consts { store_key: Pubkey, cfg_key: Pubkey, exec: [(Pubkey, u8, Pubkey, u8); 3], // (executor, bump, wallet, wallet bump)
+    /// a second, FOREIGN store with its own timelock config (delay 0) and executors: accounts of it must never be accepted
+    f_store: Pubkey, f_cfg_key: Pubkey, f_exec: [(Pubkey, u8, Pubkey, u8); 3] }
 
 fn consts() -> Consts {
     let store_key = Pubkey::new_from_array([7; 32]);
@@ -164,7 +166,16 @@ fn consts() -> Consts {
         let (w, wb) = tl::states::find_executor_wallet_pda(&e, &tl::ID);
         exec[i] = (e, eb, w, wb);
     }
-    Consts { store_key, cfg_key, exec }
+    let f_store = Pubkey::new_from_array([0xF7; 32]);
+    let f_cfg_key = Pubkey::new_from_array([0xF8; 32]);
+    let mut f_exec = exec;
+    for (i, r) in ROLES.iter().enumerate() {
+        let rb = gmsol_store::utils::fixed_str::fixed_str_to_bytes::<{ gmsol_store::states::MAX_ROLE_NAME_LEN }>(r).unwrap();
+        let (e, eb) = Pubkey::find_program_address(&[Executor::SEED, f_store.as_ref(), &rb], &tl::ID);
+        let (w, wb) = tl::states::find_executor_wallet_pda(&e, &tl::ID);
+        f_exec[i] = (e, eb, w, wb);
+    }
+    Consts { store_key, cfg_key, exec, f_store, f_cfg_key, f_exec }
 }
 
 struct World { store: Box<Store>, cfg: TimelockConfig, bufs: BTreeMap<u8, Vec<u8>> }
@@ -249,6 +260,27 @@ fn executor_acc(c: &Consts, r: usize) -> Acc {
     let mut e: Executor = Zeroable::zeroed();
     hook::executor_try_init(&mut e, c.exec[r].1, c.exec[r].3, c.store_key, ROLES[r]).unwrap();
     Acc::zc(c.exec[r].0, tl::ID, &e)
+}
+
+fn foreign_executor_acc(c: &Consts, r: usize) -> Acc {
+    let mut e: Executor = Zeroable::zeroed();
+    hook::executor_try_init(&mut e, c.f_exec[r].1, c.f_exec[r].3, c.f_store, ROLES[r]).unwrap();
+    Acc::zc(c.f_exec[r].0, tl::ID, &e)
+}
+
+fn foreign_cfg_acc(c: &Consts) -> Acc {
+    let mut cfg: TimelockConfig = Zeroable::zeroed();
+    hook::timelock_config_init(&mut cfg, 255, 0, c.f_store);
+    Acc::zc(c.f_cfg_key, tl::ID, &cfg)
+}
+
+/// the buffer bytes re-bound to the foreign executor of the same role (every occurrence of the own executor key)
+fn rebind_buffer(c: &Consts, r: usize, bytes: &[u8]) -> Vec<u8> {
+    let mut b = bytes.to_vec();
+    let (own, foreign) = (c.exec[r].0.to_bytes(), c.f_exec[r].0.to_bytes());
+    let mut i = 0;
+    while i + 32 <= b.len() { if b[i..i + 32] == own { b[i..i + 32].copy_from_slice(&foreign); i += 32; } else { i += 1; } }
+    b
 }
 
 fn parse<T: std::str::FromStr>(t: &[&str], i: usize) -> Option<T> { t.get(i)?.parse().ok() }
@@ -341,6 +373,67 @@ fn exec(c: &Consts, ws: &mut BTreeMap<String, World>, req: &str, out: &mut Out) 
                 w.bufs.insert(id, after[3].2.clone());
             }
             (format!("{} | {}", if ok { "ok" } else { "err" }, digest(c, w)), ok)
+        }
+        // ---- account-binding sweep: the same instructions with an account that belongs to ANOTHER store.
+        //      `execf … cfg` passes the foreign store's TimelockConfig (delay 0); `execf … exe`, `approvef`, `cancelf`
+        //      pass the foreign store's executor (+ its wallet) and the buffer re-bound to it; `delayf` passes the
+        //      foreign config. Every one must be rejected and change nothing.
+        "execf" | "approvef" | "cancelf" | "delayf" => {
+            let op = t[1];
+            let caller = match parse::<u8>(&t, 4) { Some(x) if x < 6 => x, _ => return bad() };
+            let (auth, store, sprog) = base_accounts(c, w, caller);
+            let before_digest = digest(c, w);
+            let (ok, what): (bool, String) = match op {
+                "delayf" => {
+                    let Some(delta) = parse::<u32>(&t, 5) else { return bad() };
+                    if t.len() != 6 { return bad(); }
+                    let mut accs = vec![auth, store, foreign_cfg_acc(c).writable(), sprog];
+                    let (ok, after) = call_entry(&mut accs, &tl::instruction::IncreaseDelay { delta }.data());
+                    let changed = ok && bytemuck::from_bytes::<TimelockConfig>(&after[2].2[8..]).delay() != 0;
+                    (ok, format!("increase_delay accepted the timelock config of another store (changed: {changed})"))
+                }
+                "approvef" => {
+                    let (Some(id), Some(r)) = (parse::<u8>(&t, 5), parse::<usize>(&t, 6)) else { return bad() };
+                    if t.len() != 7 || id >= 10 || r >= 3 { return bad(); }
+                    let bacc = match w.bufs.get(&id) { Some(b) => Acc::new(buf_key(id), tl::ID, &rebind_buffer(c, r, b)).writable(), None => Acc::new(buf_key(id), sys, &[]).writable().lamports(0) };
+                    let mut accs = vec![auth, store, foreign_executor_acc(c, r), bacc, sprog];
+                    let (ok, _) = call_entry(&mut accs, &tl::instruction::ApproveInstruction { role: ROLES[r].to_string() }.data());
+                    (ok, "approve_instruction accepted an executor (and its buffer) of another store".into())
+                }
+                "cancelf" => {
+                    let (Some(id), Some(r), Some(rr)) = (parse::<u8>(&t, 5), parse::<usize>(&t, 6), parse::<u8>(&t, 7)) else { return bad() };
+                    if t.len() != 8 || id >= 10 || r >= 3 || rr >= 6 || rr == caller { return bad(); }
+                    let bacc = match w.bufs.get(&id) { Some(b) => Acc::new(buf_key(id), tl::ID, &rebind_buffer(c, r, b)).writable(), None => Acc::new(buf_key(id), sys, &[]).writable().lamports(0) };
+                    let mut accs = vec![auth, store, foreign_executor_acc(c, r), Acc::new(user_key(rr), sys, &[]).writable(), bacc, sprog];
+                    let (ok, _) = call_entry(&mut accs, &tl::instruction::CancelInstruction {}.data());
+                    (ok, "cancel_instruction accepted an executor (and its buffer) of another store".into())
+                }
+                _ => {
+                    let (Some(id), Some(r), Some(rr), Some(which)) = (parse::<u8>(&t, 5), parse::<usize>(&t, 6), parse::<u8>(&t, 7), t.get(8)) else { return bad() };
+                    if t.len() != 9 || id >= 10 || r >= 3 || rr >= 6 || rr == caller || !(*which == "cfg" || *which == "exe") { return bad(); }
+                    let own = w.bufs.get(&id).cloned();
+                    let fexe = *which == "exe";
+                    let bacc = match &own { Some(b) => Acc::new(buf_key(id), tl::ID, &if fexe { rebind_buffer(c, r, b) } else { b.clone() }).writable(), None => Acc::new(buf_key(id), sys, &[]).writable().lamports(0) };
+                    let cfg = if fexe { Acc::zc(c.cfg_key, tl::ID, &w.cfg) } else { foreign_cfg_acc(c) };
+                    let (exe, wal) = if fexe { (foreign_executor_acc(c, r), c.f_exec[r].2) } else { (executor_acc(c, r), c.exec[r].2) };
+                    let mut accs = vec![auth, store, cfg, exe, Acc::new(wal, sys, &[]).writable(), Acc::new(user_key(rr), sys, &[]).writable(), bacc, sprog];
+                    let (ok, _) = call_entry(&mut accs, &tl::instruction::ExecuteInstruction {}.data());
+                    let mut what = format!("execute_instruction accepted the {} of another store", if fexe { "executor (and a buffer bound to it)" } else { "timelock config (delay 0)" });
+                    if ok {
+                        if let Some(b) = &own {
+                            let hsz = std::mem::size_of::<InstructionHeader>();
+                            let h: InstructionHeader = *bytemuck::from_bytes(&b[8..8 + hsz]);
+                            if let Some(at) = h.approved_at() { if (now as i128) < at as i128 + w.cfg.delay() as i128 { what += &format!(" and ran the instruction {}s before approved_at + the store's own delay", at as i128 + w.cfg.delay() as i128 - now as i128); } }
+                        }
+                        if !fexe { w.bufs.remove(&id); }   // the real call closed the buffer
+                    }
+                    (ok, what)
+                }
+            };
+            CAPTURED.lock().unwrap().clear();
+            if ok { out.oracle_fail(&what, req); }
+            let _ = before_digest;
+            (format!("{} | {}", if ok { "ok" } else { "err" }, digest(c, w)), false)
         }
         "cancel" | "exec" => {
             let (Some(caller), Some(id), Some(r), Some(rr)) = (parse::<u8>(&t, 4), parse::<u8>(&t, 5), parse::<usize>(&t, 6), parse::<u8>(&t, 7)) else { return bad() };
@@ -454,6 +547,32 @@ fn gen_next(r: &mut Rng, c: &Consts, ws: &BTreeMap<String, World>, g: &mut Gen, 
     let pick = |r: &mut Rng, v: &[u8], dflt: u8| -> u8 { if v.is_empty() || r.chance(1, 8) { if r.chance(1, 2) { dflt } else { r.below(6) as u8 } } else { v[r.below(v.len() as u64) as usize] } };
     let keepers = holders(w, tl::roles::TIMELOCK_KEEPER);
     let admins = holders(w, tl::roles::TIMELOCK_ADMIN);
+    if r.chance(1, 10) {
+        // account-binding sweep on the current state (mostly aimed at approved buffers whose delay has NOT passed yet)
+        let approved: Vec<_> = open.iter().filter(|o| o.2.is_some()).collect();
+        let pending: Vec<_> = open.iter().filter(|o| o.2.is_none()).collect();
+        let any = |r: &mut Rng| -> (u8, usize, u8) { if !open.is_empty() { let o = open[r.below(open.len() as u64) as usize]; (o.0, o.1, o.4) } else { (r.below(10) as u8, r.below(3) as usize, r.below(6) as u8) } };
+        match r.below(6) {
+            0 | 1 | 2 => {
+                let (id, role, rr) = if !approved.is_empty() { let o = approved[r.below(approved.len() as u64) as usize]; (o.0, o.1, o.4) } else { any(r) };
+                let mut caller = pick(r, &keepers, 0);
+                if caller == rr { caller = *keepers.iter().find(|k| **k != rr).unwrap_or(&((rr + 1) % 6)); }
+                return format!("tl execf {sid} {} {caller} {id} {role} {rr} {}", g.now, if r.chance(2, 3) { "cfg" } else { "exe" });
+            }
+            3 => {
+                let (id, role) = if !pending.is_empty() { let o = pending[r.below(pending.len() as u64) as usize]; (o.0, o.1) } else { let a = any(r); (a.0, a.1) };
+                let hs = holders(w, &tl::roles::timelocked_role(ROLES[role]));
+                return format!("tl approvef {sid} {} {} {id} {role}", g.now, pick(r, &hs, 2));
+            }
+            4 => {
+                let (id, role, rr) = any(r);
+                let mut caller = pick(r, &admins, 1);
+                if caller == rr { caller = *admins.iter().find(|k| **k != rr).unwrap_or(&((rr + 1) % 6)); }
+                return format!("tl cancelf {sid} {} {caller} {id} {role} {rr}", g.now);
+            }
+            _ => return format!("tl delayf {sid} {} {} {}", g.now, pick(r, &admins, 1), r.range(1, 300)),
+        }
+    }
     match r.below(12) {
         0 | 1 | 2 => {
             let id = if r.chance(9, 10) { (0..10u8).find(|i| !open.iter().any(|o| o.0 == *i)).unwrap_or(r.below(10) as u8) } else { r.below(10) as u8 };
